@@ -105,6 +105,10 @@ func TestZZVerifReplay(t *testing.T) {
 		if !filepath.IsAbs(real) {
 			real = filepath.Join(opt.verif, f)
 		}
+		if src, err := harnessSource(real, pkgName); err == nil && strings.HasPrefix(string(src), "//verif:anypkg") {
+			real = filepath.Join(tmp, "shared_"+filepath.Base(f))
+			os.WriteFile(real, src, 0o644)
+		}
 		repl[filepath.Join(pkgDir, "zz_verif_"+strings.TrimSuffix(filepath.Base(f), ".go")+".go")] = real
 	}
 	ovb, _ := json.Marshal(map[string]any{"Replace": repl})
